@@ -106,6 +106,29 @@ def apply(toks, au, opts):
             out += _call("vx_sort", [[Tok("p", "&", ""), Tok("id", "mut", "")] + [_w(recv[0], " ")] + recv[1:]], ws0)
             i = k + 1
             continue
+        # X.is_some_and(|v| E)  ->  (match X { Some(v) => E, None => false })        X.is_none_or(|v| E) -> (match X { Some(v) => E, None => true })
+        if is_p(t, ".") and toks[i + 1].kind == "id" and toks[i + 1].text in ("is_some_and", "is_none_or") and is_p(toks[i + 2], "(") and is_p(toks[i + 3], "|"):
+            k = match_close(toks, i + 2)
+            arg = toks[i + 3:k]
+            try:
+                bar2 = next(q for q in range(1, len(arg)) if is_p(arg[q], "|"))
+            except StopIteration:
+                bar2 = None
+            if bar2 is not None and bar2 == 2 and arg[1].kind == "id":
+                s_ = _expr_start(out)
+                recv = out[s_:]
+                ws0 = recv[0].ws
+                del out[s_:]
+                dflt = "false" if toks[i + 1].text == "is_some_and" else "true"
+                au.note("R", f"X.{toks[i+1].text}(|v| E) -> match X {{ Some(v) => E, None => {dflt} }}")
+                head = toks_of("(match")
+                head[0].ws = ws0
+                body_ = [x.copy() for x in arg[bar2 + 1:]]
+                if body_:
+                    body_[0].ws = " "
+                out += head + [_w(recv[0], " ")] + recv[1:] + toks_of(" { Some(" + arg[1].text + ") =>") + body_ + toks_of(", None => " + dflt + " })")
+                i = k + 1
+                continue
         # IT.collect::<std::result::Result<Vec<_>, _>>()  ->  IT.vx_collect_results()
         #   (collecting an iterator of Results: Ok(all items in order) if every item is Ok, else the first Err)
         if is_p(toks[i], ".") and is_id(toks[i + 1], "collect") and texts(toks, i + 2, 3) == [":", ":", "<"]:
